@@ -146,16 +146,28 @@ def c09(chk, tier):
         "give a master curve that is zero at level k (1e-9 of the curve's scale), off-grid ones must be refused "
         "with the dataset unchanged; without -r the highest level is the origin. "
         "non-trivial = on-grid reference with a non-dyadic step")
-    res = tlc.run("MCRefLevel", tlc.cfg_text(
-        {"Steps": "<- StepsQuick" if q else "<- StepsAll", "Bases": "<- BasesQuick" if q else "<- BasesAll",
+    beh = pick_behaviour(chk)
+    # a dataset offset that puts level id 0 (reference "0", "-0") in the middle of both curves
+    mids = []
+    for pieces, lo_i, hi_i in ((beh["risePieces"], 3, 4), (beh["recPieces"], 4, 3)):
+        cnt = {}
+        for p in pieces:
+            for n in range(p[lo_i], p[hi_i]):
+                cnt[n] = cnt.get(n, 0) + 1
+        mids.append({n for n, c in cnt.items() if c >= 2})
+    both = sorted(mids[0] & mids[1]) or sorted(mids[0] | mids[1]) or [0]
+    zero_base = -both[len(both) // 2]
+    bases = ("{0, -379, %d}" if q else "{0, -379, -50, 60, -1203, 411, 20000, %d}") % zero_base
+    wrapper = ("MCRefLevelW", "---- MODULE MCRefLevelW ----\nEXTENDS MCRefLevel\nZeroBase == %s\n====\n" % bases)
+    res = tlc.run("MCRefLevelW", tlc.cfg_text(
+        {"Steps": "<- StepsQuick" if q else "<- StepsAll", "Bases": "<- ZeroBase",
          "KWindow": "<- Window", "Fracs": "<- FracsAll", "Emit": "TRUE"}, spec="Spec",
-        invariants=["Inv_OnGridIffWhole", "Inv_Index", "EmitInv"]), workers=4,
+        invariants=["Inv_OnGridIffWhole", "Inv_Index", "EmitInv"]), workers=4, wrapper=wrapper,
         invariants=["Inv_OnGridIffWhole", "Inv_Index"])
     chk.add_tlc(res, "MCRefLevel")
     if res.get("violated"):
         chk.violation("RefLevel.tla inconsistent: " + res["error"][:400], {"kind": "tlc"})
         return
-    beh = pick_behaviour(chk)
     groups = {}
     for c in res["emits"]:
         groups.setdefault((tuple(c["step"]), c["base"]), []).append(c)
